@@ -367,6 +367,7 @@ class StmtMixin:
         fr.locals["idx"] = idx0
         for gname, gsort in spec.ghost.items():
             st.ghost[gname] = SV(st.fresh("g_" + gname, _ghost_sort(gsort)), Ty("zarray"))
+        fr.loop_entry = (dict(st.heap), dict(fr.locals))     # visible to spec functions while the invariant is established
         if getattr(spec, "assumed", False):
             self.assumptions.add(f"ASSUMED loop contract (not proved) for `{key[:60]}` in {fname}: " + "; ".join(str(i) for i in spec.invariant)[:300])
         for k, (lab, f) in enumerate(eval_spec_list(self, spec.invariant, fr)):
